@@ -8,7 +8,7 @@ import gen
 import core
 from core import fr, w_rat, w_rats, w_bool, p_rats, cmp_exact, cmp_budget, call_impl, w_floats, p_floats
 
-PROP_MODULES = ['C14', 'C14Gen', 'C14GenInterp', 'C14Resample']
+PROP_MODULES = ['C14', 'C14Gen', 'C14GenInterp', 'C14Resample', 'C14GenObject']
 EXHAUSTIVE = True
 RULE = ("corpus (F14-1 witness n=33/.01/.09/even, decimal pairs .3/.1 .06/.02 .07/.01 .01/.07, dt==target, 1/49) ; exhaustive: all ratios "
         "dt:target = p:q with p,q <= 12 on a dyadic base (1/64) and a decimal base (.01) x n in a small set x even in {T,F}; binary64 "
@@ -837,4 +837,16 @@ _run_main2 = run
 def run(ctx):
     _run_main2(ctx)
     extras2(ctx)
+    ctx.flush()
+
+
+# ---- round-7 deliveries (lw_small / tw_single3): further correspondences of models with new theorems -------------------------
+import _lw_small as _LW  # noqa: E402
+from _single3_corr import corr_single3  # noqa: E402
+_run_main_r7 = run
+
+
+def run(ctx):
+    _run_main_r7(ctx)
+    corr_single3(ctx, parts=('timestep',))
     ctx.flush()
